@@ -1761,19 +1761,24 @@ class DynDiGraph(nx.DiGraph):
                                 r = set(range(o[0], o[1] + 1))
                                 for i in intc:
                                     r2 = set(range(i[0], i[1] + 1))
-                                    inter = list(r & r2)
-                                    if len(inter) == 1:
-                                        H.add_interaction(u, v, t=inter[0])
-                                    elif len(inter) > 1:
-                                        H.add_interaction(u, v, t=inter[0], e=inter[-1])
+                                    # r and r2 are ranges: their intersection is one interval
+                                    inter = sorted(r & r2)
+                                    if len(inter) > 0:
+                                        H.add_interaction(u, v, t=inter[0], e=inter[-1] + 1)
 
                         except Exception:
                             pass
 
         else:
-            for it in self.interactions_iter():
-                for t in it[2]['t']:
-                    H.add_interaction(it[0], it[1], t=t[0], e=t[1])
+            # both directions of a pair feed one undirected timeline, which
+            # add_interaction requires to be fed in chronological order
+            spans = {}
+            for it in self.out_interactions_iter():
+                key = (it[1], it[0]) if (it[1], it[0]) in spans else (it[0], it[1])
+                spans.setdefault(key, []).extend(it[2]['t'])
+            for (u, v), timeline in spans.items():
+                for t in sorted(timeline):
+                    H.add_interaction(u, v, t=t[0], e=t[1] + 1)
 
         H.graph = deepcopy(self.graph)
         H._node = deepcopy(self._node)
